@@ -26,6 +26,7 @@ import itertools
 from hypothesis import strategies as st
 
 from vlib import onionref
+from vlib import wire as wire_mod
 from vlib.harness import Watch, LogCapture
 from vlib.runner import Result, HarnessError
 
@@ -518,6 +519,85 @@ def grid_cases():
 
 DRIVERS = {"create": drive_create}
 
+# --------------------------------------------------------------------------- one auth object, several services
+#
+# Driver "reuse": {"clients": [[name, token|null], ...], "n": [i, j], "order": "after"|"before"}
+# The same AuthBasic object is passed to two create() calls (order: the second call is made after / before Tor
+# answered the first).  Every ADD_ONION must carry exactly the requested client entries - a client requested without
+# a token stays without one in the second command, whatever token Tor generated for the first service.
+
+def reuse_cases():
+    name = st.sampled_from(["alice", "bob", "carol", "dave"])
+    tok = st.one_of(st.none(), st.none(), st.sampled_from(["dG9rZW5hYWFhYWFhYWFhYWFhYQ", "MDAwMDAwMDAwMDAwMDAwMDAwMA"]))
+    return st.builds(lambda cl, a, b, o: {"clients": [list(x) for x in cl], "n": [a, b], "order": o},
+                     st.lists(st.tuples(name, tok), min_size=1, max_size=3, unique_by=lambda x: x[0]),
+                     st.integers(0, 5), st.integers(0, 5), st.sampled_from(["after", "after", "before"]))
+
+
+def drive_reuse(case):
+    from txtorcon import onion as txonion
+    res = Result()
+    decoded = []
+    held = []
+    ns = list(case["n"])
+
+    def answer(line):
+        try:
+            req = onionref.parse_add_onion(line)
+        except onionref.DecodeError as e:
+            decoded.append(("error", str(e), line))
+            return {"code": 512, "parts": [], "final": "Bad arguments to ADD_ONION"}
+        decoded.append(("ok", req, line))
+        k = ns[(len(decoded) - 1) % len(ns)]
+        sid, blob = onionref.RSA_KEYS[k % len(onionref.RSA_KEYS)]
+        toks = [(name, "Z2VuZXJhdGVkLXRva2VuLSVk" [:20] + "%02d" % (len(decoded) * 7 + i))
+                for i, (name, b) in enumerate(req.client_auth) if b is None]
+        rep = onionref.add_onion_reply(sid, "RSA1024:" + blob, toks)
+        if case["order"] == "before" and len(decoded) == 1:
+            held.append(rep)
+            return None
+        return rep
+
+    tor = onionref.OnionTor(add_onion=answer)
+    reactor = onionref.FakePortReactor([40001, 40002, 40003, 40004])
+    cfg = tor.config()
+    clients = [n if t is None else (n, t) for n, t in case["clients"]]
+    auth = txonion.AuthBasic(clients)
+    want = sorted((n, t) for n, t in case["clients"])
+    with LogCapture():
+        for i in range(2):
+            try:
+                d = txonion.EphemeralAuthenticatedOnionService.create(reactor, cfg, [(80 + i, 8080 + i)],
+                                                                       auth=auth, version=2)
+                Watch(d)
+            except Exception as e:
+                res.bad("create-raised", "create #%d with a re-used AuthBasic raised %r" % (i + 1, e))
+                return res
+            tor.pipe.pump()
+        if held:
+            tor.pipe.inject(wire_mod.encode_reply(held[0]))
+            tor.pipe.pump()
+    if len(decoded) != 2:
+        res.bad("add-onion-count", "two create() calls wrote %d ADD_ONION: %r" % (len(decoded), tor.add_onion_lines))
+        return res
+    for i, ent in enumerate(decoded):
+        if ent[0] != "ok":
+            res.bad("add-onion-malformed", "%r: %s" % (ent[2], ent[1]))
+            continue
+        got = sorted((n, b) for n, b in ent[1].client_auth)
+        if got != want:
+            res.bad("client-auth-differs-on-reused-auth-object" if i == 1 else "wrong-client-auth",
+                    "create #%d sent ClientAuth %r, requested %r (line %r)" % (i + 1, got, want, ent[2]))
+    res.nontrivial = any(t is None for n, t in case["clients"])
+    res.label("reuse-order-" + case["order"])
+    if all(t is None for n, t in case["clients"]):
+        res.label("all-clients-without-token")
+    return res
+
+
+DRIVERS["reuse"] = drive_reuse
+
+
 MANIFEST = {
     "text": "Exhaustive enumeration of the onion-service option product (version x key kind x detach x single-hop x "
             "basic-auth client sets x port-mapping forms x entry point; every cell in the thorough tier) plus "
@@ -537,10 +617,12 @@ def run(ctx):
     if ctx.quick():
         ctx.enumerate("create", itertools.islice(grid_cases(), 0, None, 7), name="option-grid-sample",
                       exhaustive=False)
-        ctx.search("create", cases(), quick=700)
+        ctx.search("create", cases(), quick=600)
+        ctx.search("reuse", reuse_cases(), quick=150)
     else:
         ctx.enumerate("create", grid_cases(), name="option-grid")
         ctx.search("create", cases(), quick=700, thorough=6000)
+        ctx.search("reuse", reuse_cases(), quick=150, thorough=1000)
 
 
 MUTANTS = [
